@@ -49,7 +49,9 @@ E8(s) == [i \in 1..8 |-> (i * 29 + s) % 256]
 CFLists == {<<>>,
             <<[type |-> 0, chans |-> <<[q |-> 8671000, r |-> 0], [q |-> 8673000, r |-> 0], [q |-> 16777215, r |-> 0], [q |-> 0, r |-> 0], [q |-> 1, r |-> 0]>>]>>,
             <<[type |-> 1, masks |-> <<[i \in 1..16 |-> 1], [i \in 1..16 |-> 0], [i \in 1..16 |-> i % 2]>>]>>,
-            <<[type |-> 1, masks |-> [k \in 1..6 |-> [i \in 1..16 |-> (i + k) % 2]]]>>}
+            <<[type |-> 1, masks |-> [k \in 1..6 |-> [i \in 1..16 |-> (i + k) % 2]]]>>,
+            <<[type |-> 1, masks |-> <<[i \in 1..16 |-> 0], [i \in 1..16 |-> 1], [i \in 1..16 |-> i % 2], [i \in 1..16 |-> 0], [i \in 1..16 |-> IF i = 3 THEN 1 ELSE 0]>>]>>,
+            <<[type |-> 1, masks |-> <<[i \in 1..16 |-> 0], [i \in 1..16 |-> 0], [i \in 1..16 |-> 1], [i \in 1..16 |-> 0], [i \in 1..16 |-> 1], [i \in 1..16 |-> 1]>>]>>}
 JoinVals ==
   { [kind |-> "joinreq", mtype |-> 0, major |-> 0, mic |-> <<1, 2, 3, 4>>, joineui |-> E8(1), deveui |-> E8(2), devnonce |-> dn] : dn \in {0, 1, 258, 65535} }
   \cup { [kind |-> "rejoin02", mtype |-> 6, major |-> 0, mic |-> <<1, 2, 3, 4>>, rjtype |-> t, netid |-> <<1, 2, 3>>, deveui |-> E8(3), rjcount |-> rc] : t \in {0, 2}, rc \in {0, 513, 65535} }
